@@ -977,6 +977,17 @@ def real_rate_concrete(rp):
     elif rp.get("gamma") == "huge":
         kw["gamma"] = lambda *a: 1e6
     m = mk_model(name, rp.get("construct_params") or rp["params"], **kw)
+    if rp.get("history"):
+        # the instance has rated before: stored snapshots of the same players with other values, other players
+        g0 = mk_game(name, rp["game"])
+        pre = [[copy.deepcopy(p) for p in t] for t in g0]
+        for t in pre:
+            for k, p in enumerate(t):
+                p.mu, p.sigma = p.mu + 2.5 + k, p.sigma * 0.5 + 0.3
+        m.rate(pre)
+        R_ = rating_cls(name)
+        m.rate([[R_(20.0, 7.0)], [R_(30.0, 6.0)]], ranks=[2, 1])
+        rp = dict(rp, _history_ids=[[p.id for p in t] for t in g0])
     if rp.get("construct_params"):
         # the model was built with other parameters and its attributes were assigned afterwards
         for k, v in rp["params"].items():
@@ -985,6 +996,10 @@ def real_rate_concrete(rp):
     if rp.get("t") is not None:
         ckw["tau"] = num(rp["t"])
     g = mk_game(name, rp["game"])
+    if rp.get("_history_ids"):
+        for t, ids in zip(g, rp["_history_ids"]):
+            for p, pid in zip(t, ids):
+                p.id = pid
     if rp.get("twins"):
         # every team is a deep copy of the first: same values, same ids
         g = [g[0]] + [[copy.deepcopy(p) for p in g[0]] for _ in g[1:]]
